@@ -124,7 +124,7 @@ def _work_file(path):
 
 def corpus_files(tier):
     '''Fortran files of the repository's tests and examples (a scratch copy made
-    without them falls back to /repo).  Quick tier: files up to 12 kB.'''
+    without them falls back to /repo).  Quick tier: files up to 8 kB.'''
     res = []
     for root in (core.REPO, "/repo"):
         tf = os.path.join(root, "src", "psyclone", "tests", "test_files")
@@ -140,7 +140,7 @@ def corpus_files(tier):
         raise core.MachineryError("Fortran corpus not found")
     res.sort()
     if tier == "quick":
-        res = [p for p in res if os.path.getsize(p) <= 12000]
+        res = [p for p in res if os.path.getsize(p) <= 8000]
     return res
 
 
@@ -291,7 +291,7 @@ def run(tier, only=None):
     cov = {"states": 0, "transitions": 0, "traces_validated_against_impl": 0,
            "samples": [], "exhaustive": False}
     design_check(tier, cov)
-    ngen = 360 if tier == "quick" else 2500
+    ngen = 300 if tier == "quick" else 2500
     seed = core.seed()
     jobs = [(i, seed, 0) for i in range(ngen)]
     jobs += [(i, seed, 1 + (i % 2)) for i in range(0, ngen, 2 if tier == "quick" else 1)]
@@ -375,4 +375,4 @@ def run(tier, only=None):
         "code blocks must be kept (the reader ignores comments and directives in this version)",
         "line-based itemiser (pv.c03_item) over the writer's one-statement-per-line output; "
         "fails closed (unsupported)",
-        "quick tier: repository files up to 12 kB"])
+        "quick tier: repository files up to 8 kB"])
